@@ -354,6 +354,27 @@ class Lowerer:
         self._refs = refs
         return s
 
+    def decl_in_if(self, s):
+        """C++17 `if (T x = e) ...` / `if (T x = e; c) ...` -> `T x = e; if (x) ...` / `T x = e; if (c) ...` (the name stays visible afterwards:
+           a later redeclaration would be rejected by the C front end, i.e. undecided, never wrong)"""
+        pat = re.compile(r'\bif\s*\(\s*((?:const\s+)?(?:auto|struct\s+\w+|[A-Za-z_][\w:]*(?:<[^;()]*>)?)\s*[*&]*\s*(?:const\s+)?)([A-Za-z_]\w*)\s*=(?!=)')
+        pos = 0
+        while True:
+            m = pat.search(s, pos)
+            if not m: return s
+            if m.group(1).split()[0] in ('return', 'else', 'case') : pos = m.end(); continue
+            i = s.index('(', m.start()); j = match_brace(s, i, '(', ')')
+            inner = s[i + 1:j]
+            d = 0; semi = -1
+            for k, ch in enumerate(inner):
+                if ch in '([{': d += 1
+                elif ch in ')]}': d -= 1
+                elif ch == ';' and d == 0: semi = k; break
+            if semi >= 0: decl, cond = inner[:semi].strip(), inner[semi + 1:].strip()
+            else: decl, cond = inner.strip(), m.group(2)
+            s = s[:m.start()] + decl + '; if (' + cond + ')' + s[j + 1:]
+            self.fire('decl_in_if'); pos = m.start() + len(decl) + 2
+
     def autos(self, s):
         s, n = re.subn(r'\b(?:const\s+)?auto(?:\s+const\b)?\s*\*?\s*(?:const\s+)?(?=\w+\s*(=|;|\{))', '__auto_type ', s)
         if n: self.fire('auto', n)
@@ -506,7 +527,7 @@ class Lowerer:
             post = ''.join(t[semi + 1:])
         self.fire('cut_loop')
         self._cut_bodies = getattr(self, '_cut_bodies', {})
-        self._cut_bodies[name] = body
+        self._cut_bodies[name] = body + ' ;\n' + (cond or '') + ' ;\n' + (step if kind == 'for' else '') + ' ;'      # writes in the condition / step count too (a loop reshaped from do/while to for(;;) must not change what has to be havocked)
         return pre + new + post
 
     # -- driver --------------------------------------------------------------
@@ -521,6 +542,7 @@ class Lowerer:
         s = self.methods(s)
         s = self.calls(s)
         s = self.throws(s)
+        s = self.decl_in_if(s)
         s = self.references(s)
         s = self.autos(s)
         s = self.members(s)
